@@ -276,6 +276,30 @@ func (w *worldA) byzantine(nd *simNode, rounds int) {
 			m.KeyDigest = append(hashing.Digest{}, d...)
 			w.judge("splice-hyper-of-this", m, d, q, cv)
 		}
+		// 5b. forge an EARLIER query version: the genuine hyper part (actual version
+		// a) with the history part of a genuine answer for the last event of an
+		// earlier tree q < a — its audit path holds the left siblings along the
+		// right spine of tree q, which is all a recomputation that never reaches
+		// leaf a needs. Judged against the authentic snapshot of version q.
+		if a := g.ActualVersion; a > 0 {
+			for t := 0; t < 3; t++ {
+				qq := uint64(rng.IntN(int(a)))
+				if gq := w.genuineAnswer(nd, rl.Digests[qq], qq); gq != nil {
+					m := cloneMR(g)
+					m.QueryVersion = qq
+					m.History = cloneMR(gq).History
+					w.judge("forged-earlier-query-version", m, d, qq, cv)
+					// the same for a never-added digest that shares d's leaf
+					dd := append([]byte{}, d...)
+					dd[31] ^= 1
+					if !rl.Has(dd) {
+						m2 := cloneMR(m)
+						m2.KeyDigest = dd
+						w.judge("forged-earlier-query-version-absent-twin", m2, dd, qq, cv)
+					}
+				}
+			}
+		}
 		// 6. empty / oversize paths
 		m = cloneMR(g)
 		m.Hyper = map[string]hashing.Digest{}
